@@ -227,6 +227,48 @@ class HNM(HookMix, NodeMixin):
         self.name = name
 
 
+class HSlotStoreNM(HookMix, NodeMixin):
+    """NodeMixin class that declares the mixin's own private names as slots: nothing tree-related lives in the instance dict."""
+
+    __slots__ = ("_NodeMixin__parent", "_NodeMixin__children", "name")
+    separator = "/"
+
+    def __init__(self, name):
+        self.name = name
+
+
+class HSideNM(HookMix, NodeMixin):
+    """NodeMixin class that keeps ALL its attributes in a side table behind __setattr__/__getattr__ (the pattern
+    SymlinkNodeMixin itself uses for forwarding): normal attribute access works, the instance dict stays empty."""
+
+    separator = "/"
+
+    def __init__(self, name):
+        object.__setattr__(self, "_side", {})
+        self.name = name
+
+    def __setattr__(self, key, value):
+        if isinstance(getattr(type(self), key, None), property):
+            object.__setattr__(self, key, value)  # parent, children: the mixin's own properties
+        else:
+            self.__dict__["_side"][key] = value
+
+    def __getattr__(self, key):
+        try:
+            return self.__dict__["_side"][key]
+        except KeyError:
+            raise AttributeError(key) from None
+
+    def __delattr__(self, key):
+        if isinstance(getattr(type(self), key, None), property):
+            object.__delattr__(self, key)
+        else:
+            try:
+                del self.__dict__["_side"][key]
+            except KeyError:
+                raise AttributeError(key) from None
+
+
 class HLM(HookMix, LightNodeMixin):
     __slots__ = ("name",)
     separator = "/"
@@ -371,6 +413,8 @@ CLASSES = {
     "DictLM": (lambda l: _nodes.DictLM(_name(l)), "LM", False),
     "LateSuperNM": (lambda l: _nodes.LateSuperNM(_name(l)), "NM", False),
     "LockNM": (lambda l: LockNM(_name(l)), "NM", False),
+    "HSlotStoreNM": (lambda l: HSlotStoreNM(_name(l)), "NM", True),
+    "HSideNM": (lambda l: HSideNM(_name(l)), "NM", True),
     "HRevNM": (lambda l: HRevNM(_name(l)), "NM", True),
     "HRevLM": (lambda l: HRevLM(_name(l)), "LM", True),
 }
